@@ -24,6 +24,7 @@ pub enum F2 {
     C13,
     C15,
     C16,
+    C19,
 }
 
 impl F2 {
@@ -43,6 +44,7 @@ impl F2 {
             F2::C13 => "C13",
             F2::C15 => "C15",
             F2::C16 => "C16",
+            F2::C19 => "C19",
         }
     }
 }
@@ -75,6 +77,24 @@ pub fn key_args(k: u8) -> Vec<ArgVal> {
     vec![ArgVal::U(a), ArgVal::Str(STRS[(k % 9) as usize].to_string())]
 }
 
+/// Arguments (and receiver) of call number `k` of function `d`: the fixed pool for the
+/// standard `(u32, String)` signature, otherwise values generated from (function, k).
+pub fn args_for(d: &FnDesc, k: u8) -> (Option<ArgVal>, Vec<ArgVal>) {
+    if simple_sig(d) {
+        return (None, key_args(k));
+    }
+    let mut bytes = [0u8; 96];
+    let mut x = crate::infra::mix(d.id as u64, k as u64 + 1);
+    for b in bytes.iter_mut() {
+        x = crate::infra::splitmix64(x);
+        *b = (x >> 24) as u8;
+    }
+    let mut dd = Dec::new(&bytes);
+    let recv = if d.receiver != vrt::Receiver::None { Some(ArgVal::UStruct(k as u32 % 3, ["", "r|", "x\"y"][(k as usize / 3) % 3].to_string())) } else { None };
+    let args = d.args.iter().map(|t| crate::c02::gen_val(t, &mut dd, 0)).collect();
+    (recv, args)
+}
+
 fn simple_sig(d: &FnDesc) -> bool {
     d.receiver == vrt::Receiver::None && d.args.len() == 2 && d.args[0] == vrt::Ty::U32 && d.args[1] == vrt::Ty::String && d.gates == 0
 }
@@ -86,6 +106,18 @@ fn candidates(focus: F2) -> &'static Vec<u32> {
     let m = CACHE.get_or_init(|| {
         let c = static_corpus();
         let mut m: BTreeMap<&'static str, Vec<u32>> = BTreeMap::new();
+        if crate::macro_l2::is_generated_corpus() {
+            // a generated program: every check draws from all of its functions
+            let all: Vec<u32> = c.funcs.iter().filter(|d| d.gates == 0).map(|d| d.id).collect();
+            let shared: Vec<u32> = c.funcs.iter().filter(|d| d.gates == 0 && d.flavour != Flavour::Thread).map(|d| d.id).collect();
+            for k in ["C01", "C03", "C04", "C05", "C06", "C07", "C08", "C09", "C10", "C11", "C16", "C19"] {
+                m.insert(k, all.clone());
+            }
+            for k in ["C12", "C13", "C15"] {
+                m.insert(k, shared.clone());
+            }
+            return m;
+        }
         let all: Vec<&FnDesc> = c.funcs.iter().filter(|d| simple_sig(d)).collect();
         let ids = |p: &dyn Fn(&FnDesc) -> bool| -> Vec<u32> { all.iter().filter(|d| p(d)).map(|d| d.id).collect() };
         let plain = |d: &FnDesc| !d.is_result() && !d.cache_if && !d.invalidate_on;
@@ -106,6 +138,7 @@ fn candidates(focus: F2) -> &'static Vec<u32> {
         m.insert("C13", ids(&|d| d.flavour != Flavour::Thread && ((d.family == "reg") || (d.family == "conc" && d.ttl.is_none()) || (plain(d) && d.family == "grid" && (d.limit.is_some() || d.max_memory.is_some()) && d.ttl.is_none()))));
         m.insert("C15", ids(&|d| d.flavour != Flavour::Thread && matches!(d.family, "reg" | "grid" | "concu" | "res" | "inv")));
         m.insert("C16", ids(&|_| true));
+        m.insert("C19", c.funcs.iter().filter(|d| d.gates == 0).map(|d| d.id).collect());
         m
     });
     m.get(focus.id()).expect("focus candidates")
@@ -120,6 +153,7 @@ pub fn decode(bytes: &[u8], focus: F2, tier: Tier) -> MacroCase {
         F2::C13 | F2::C15 => 2 + d.choose(3),
         F2::C12 => 3 + d.choose(6),
         F2::C16 => 1 + d.choose(3),
+        F2::C19 => 1 + d.choose(3),
         _ => 1 + d.choose(2),
     };
     let mut fns: Vec<u32> = Vec::new();
@@ -150,6 +184,7 @@ pub fn decode(bytes: &[u8], focus: F2, tier: Tier) -> MacroCase {
         F2::C12 => [14, 0, 1, 0, 9, 0],
         F2::C15 => [14, 3, 2, 1, 1, 2],
         F2::C16 => [12, 3, 2, 1, 2, 1],
+        F2::C19 => [16, 4, 2, 1, 2, 1],
     };
     let all_sync_thread_only = fns.iter().all(|id| corpus.by_id(*id).flavour == Flavour::Thread);
     let mut ops = Vec::with_capacity(n_ops);
@@ -238,6 +273,10 @@ fn evaluates(focus: F2, f: &L2Finding, d: &FnDesc, mem_evicted: bool) -> bool {
         F2::C13 => matches!(c, "inv-exact" | "inv-precise" | "registry-count" | "bound" | "count" | "order" | "mem-bound" | "mem-count" | "miss-present" | "hit-absent" | "no-listing"),
         F2::C15 => c == "stats",
         F2::C16 => c == "panic",
+        // any divergence from the model configured with the written attribute values means an
+        // attribute did not take effect as written (registry counts depend on process history
+        // only in a non-forked run; cases are forked)
+        F2::C19 => c != "panic",
     }
 }
 
@@ -336,8 +375,8 @@ fn run_in_thread(case: MacroCase, focus: F2, key: u64) -> CaseOut {
         match op {
             MOp::Call { f, k, sc } => {
                 let fi = *f as usize % sim.fns.len();
-                let args = key_args(*k);
-                let info = sim.call(fi, None, &args, sc);
+                let (recv, args) = args_for(sim.fns[fi].d, *k);
+                let info = sim.call(fi, recv.as_ref(), &args, sc);
                 if let Some(msg) = info.panicked {
                     if focus == F2::C16 {
                         let d = sim.fns[fi].d;
@@ -584,6 +623,10 @@ fn run_in_thread(case: MacroCase, focus: F2, key: u64) -> CaseOut {
         F2::C13 => (a.proper_subset && a.overflow_after_inv) || a.group_match_with_bystander,
         F2::C15 => a.any_hit && a.any_miss && (a.expiry || a.any_inv),
         F2::C16 => a.overflow || a.mem || a.expiry,
+        F2::C19 => {
+            let multi = sim.fns.iter().any(|s| s.d.attr_text.matches(" = ").count() >= 2);
+            multi && (a.overflow || a.mem || a.expiry || a.cif_reject || a.any_inv || a.stale_then_call || a.two_errs || a.err_then_ok_then_call)
+        }
     };
     vrt::clock::unfreeze();
     out
@@ -613,6 +656,7 @@ f2_fns!(run_c12, desc_c12, F2::C12);
 f2_fns!(run_c13, desc_c13, F2::C13);
 f2_fns!(run_c15, desc_c15, F2::C15);
 f2_fns!(run_c16, desc_c16, F2::C16);
+f2_fns!(run_c19, desc_c19, F2::C19);
 
 pub const L2_LEN_QUICK: usize = 16 + 31 * 6 + 8;
 pub const L2_LEN_THOROUGH: usize = 16 + 55 * 6 + 8;
